@@ -387,4 +387,74 @@ def _chk_round(out):
 for _d in (2, 3, 4):
     for _ttm in (False, True):
         scn(name=f"round_tt:d{_d}.{'ttm' if _ttm else 'tt'}", func="_decomposition.round_tt", props=("C02",), args=None,
-            driver=_drv_round(_d, _ttm), check=_chk_round, hooks=factor_hooks(), tier="thorough" if _d == 4 else "quick")
+            driver=_drv_round(_d, _ttm), check=_chk_round, hooks=factor_hooks(), tier="thorough" if _d == 4 else "quick", strict_sizes=True)
+
+
+# --------------------------------------------------------------------------- to_tt (TT-SVD) as a whole, concrete orders (C01)
+
+def _drv_to_tt(d, scalar_rmax):
+    def drv(it, model):
+        f = model.func("_decomposition.to_tt")
+        sizes = []
+        for j in range(d):
+            it.facts.lb[f"n{j}"] = 1
+            sizes.append(_sz(f"n{j}"))
+        A = VTensor(net.atom_tensor(it.sp, "A", sizes), "dtype:x")
+        for j in range(d + 1):
+            it.facts.lb[f"rmax{j}"] = 1
+        it.facts.lb["rmax"] = 1
+        rmax = VInt(_sz("rmax")) if scalar_rmax else VList([VInt(ONE)] + [VInt(_sz(f"rmax{j}")) for j in range(1, d)] + [VInt(ONE)])
+        res = it.call_function(f, [A, VList([VInt(s) for s in sizes]), VScalar(net.Coef.sym("eps")), rmax], {})
+        return VTuple((res, VObj("_state", {"d": VInt(P.const(d)), "sizes": VList([VInt(s) for s in sizes]), "scalar": VBool(scalar_rmax)})))
+    return drv
+
+
+def _chk_to_tt(out):
+    v = out.value
+    if not (isinstance(v, VTuple) and len(v.items) == 2 and isinstance(v.items[1], VObj) and isinstance(v.items[0], VTuple) and len(v.items[0].items) == 2):
+        return [("result", False, "to_tt does not return (cores, ranks)")]
+    st = v.items[1].attrs
+    d = int(st["d"].p.const_value())
+    sizes = [x.p for x in st["sizes"].items]
+    scalar = st["scalar"].v
+    cores, R = v.items[0].items
+    if not (isinstance(cores, VList) and len(cores.items) == d and all(isinstance(c, VTensor) for c in cores.items) and isinstance(R, VList) and len(R.items) == d + 1):
+        return [("result", False, f"to_tt of an order-{d} array does not return {d} cores and {d + 1} ranks")]
+    rr = [x.p if isinstance(x, VInt) else None for x in R.items]
+    res = []
+    okb = None not in rr and out.facts.norm(rr[0]) == ONE and out.facts.norm(rr[-1]) == ONE
+    res.append(("boundary", okb, "boundary ranks are 1" if okb else "the boundary ranks of the decomposition are not 1"))
+    oks, why = None not in rr, ""
+    if oks:
+        for k, c in enumerate(cores.items):
+            a, why = _shape_is(out, c, [rr[k], sizes[k], rr[k + 1]], f"core {k}")
+            if not a:
+                oks = False
+                break
+    res.append(("shape", bool(oks), "core k is r_k x n_k x r_(k+1): the requested shape, described by the returned ranks" if oks else
+                f"the cores do not have the requested mode sizes / do not chain with the returned ranks: {why}"))
+    txt = [c.dense().canon() for c in cores.items]
+    okf = all("svdU[" in txt[k] for k in range(d - 1)) and "A" in txt[0] and "svdV[" in txt[d - 1] and "svdS[" in txt[d - 1]
+    res.append(("factors", okf, "cores 0..d-2 are kept left singular factors, the last core the carried S V" if okf else
+                "a core is not the kept singular factor of its unfolding (or the remainder S V is not carried to the end): the product of the cores is not the truncated array"))
+    okc, whyc = True, ""
+    for i in range(1, d):
+        if rr[i] is None:
+            continue
+        ri = repr(out.facts.norm(rr[i]))
+        cap = "rmax" if scalar else f"rmax{i}"
+        if ri == cap:
+            continue
+        smaller = any((k == f"{ri} < {cap}" and v_) or (k == f"{cap} < {ri}" and not v_) for k, v_ in out.decisions)
+        if not (ri.startswith("r_kept") and smaller):
+            okc, whyc = False, f"rank {i} is {ri}"
+            break
+    res.append(("cap", okc, "each interior rank is min(selected rank, its cap)" if okc else
+                f"on this path {whyc}, which is not min(selected rank, {cap}): a rank may exceed rmax" + ("" if scalar else " (per-bond list)")))
+    return res
+
+
+for _d in (2, 3, 4):
+    for _sc in (False, True):
+        scn(name=f"to_tt:d{_d}.{'rmax-int' if _sc else 'rmax-list'}", func="_decomposition.to_tt", props=("C01",), args=None,
+            driver=_drv_to_tt(_d, _sc), check=_chk_to_tt, hooks=factor_hooks(), tier="thorough" if _d == 4 else "quick", strict_sizes=True)
